@@ -106,7 +106,7 @@ def main():
                 "evidence_file": f"/verif/evidence/{pid}.json",
                 "replay_cmd_template": f"./check {pid} --replay {{path}}",
                 "engine": eng,
-                "level_claimed": {"category": cat, "text": text, "design_ref": ref},
+                "level_claimed": {"category": cat, "text": text + " The evidence file's `rule` states the world as it is generated today; dimensions added after the design was written are listed in DESIGN.md §14.1, sensitivity results (independent seeded changes and mutants this check catches) in §17.", "design_ref": ref},
                 "level_note": note,
                 "technique": tech,
             })
@@ -132,7 +132,7 @@ def main():
         "engines": engines,
         "checks": checks,
         "not_applicable": na,
-        "notes": "Exit codes: 0 held, 1 VIOLATION printed, 2 harness trouble. VERIF_SEED overrides the fixed default seed. Known findings: /verif/known_findings.jsonl.",
+        "notes": "Exit codes: 0 held, 1 VIOLATION printed, 2 harness trouble. VERIF_SEED overrides the fixed default seed (VERIF_THREADS, VERIF_RUNS, VERIF_WALL_S bound a batch). Known findings: /verif/known_findings.jsonl. Sensitivity material: /verif/seeded/<id>-agent{1..4}/ (72 independent breaking changes with demonstrations, seeded/RESULTS.json = last full re-run against the final checks) and /verif/mutants/ (54 single-edit mutants, RESULTS.json); tools/seeded_suite.py and tools/mutants.py re-run them (they apply each patch to /repo's working tree and undo it).",
     }
     json.dump(m, open(os.path.join(HERE, "MANIFEST.json"), "w"), indent=1)
     print("claimed:", [c["property_id"] for c in checks])
